@@ -98,6 +98,7 @@ def correspondence(ctx, prop, rng, work, reqs, meta, G, tables, g, ci, inc_choic
     return outs
 
 # ---------------------------------------------------------------------------------------------- independent reader + oracles
+class BadNodeId(Exception): pass
 def read_nodeset(text):
     """a small NodeSet2 reader (lxml + 40 lines), independent of the library's parser: URI-level nodes and references of one document"""
     root = ET.fromstring(text.encode("utf-8"))
@@ -110,6 +111,7 @@ def read_nodeset(text):
         if text.startswith("ns="):
             head, rest = text.split(";", 1); idx = int(head[3:])
         else: idx, rest = 0, text
+        if "=" not in rest: raise BadNodeId(text)
         t, ident = rest.split("=", 1); used_idx.add(idx)
         return (uris[idx] if idx < len(uris) else "?undeclared-%d" % idx, t, ident)
     nodes = []; refs = []
@@ -201,7 +203,8 @@ def oracle_c07(uri, out):
     if not s.validate(root):
         msgs = sorted(set(str(e.message)[:110] for e in s.error_log))[:3]
         fails.append(("C07/schema-invalid", "; ".join(msgs)))
-    doc = read_nodeset(out[1])
+    try: doc = read_nodeset(out[1])
+    except BadNodeId as e: return fails + [("C07/not-a-nodeid", "%r is written where a NodeId belongs" % (str(e)[:60],))]
     if len(doc["uris"]) < 2 or doc["uris"][1] != uri: fails.append(("C07/first-uri", "%r" % (doc["uris"][:3],)))
     if not doc["models"] or doc["models"][0].get("ModelUri") != uri: fails.append(("C07/model-uri", "%r" % ([m.get("ModelUri") for m in doc["models"]],)))
     if any(i >= len(doc["uris"]) for i in doc["used_idx"]): fails.append(("C07/undeclared-index", "%r with %d URIs" % (sorted(doc["used_idx"]), len(doc["uris"]))))
@@ -258,7 +261,7 @@ def run(ctx, prop):
             for (uri, inc), out in outs.items():
                 feats = ["inc" if inc else "no-outgoing", "hostile" if hostile else "plain", "nodes=%d" % min(nodes_by_uri.get(uri, 0), 3)]
                 ctx.record(dict(case=ci, uri=uri, inc=inc, files=[n for n, _ in files]), len(g.uris) > 1, feats)
-                causes = write_causes(G, tables, uri, out) - {"model-version-defaulted"}
+                causes = write_causes(G, tables, uri, out, inc) - {"model-version-defaulted"}
                 fl = oracle_c06(tables, uri, inc, out) if prop == "C06" else (oracle_c07(uri, out) if prop == "C07" else [])
                 for sig, detail in fl:
                     ctx.fail(("%s/known:" % prop + "+".join(sorted(causes))) if causes else sig, dict(kind="write", files=files, uri=uri, inc=inc), sig + ": " + detail)
@@ -289,7 +292,7 @@ def run(ctx, prop):
     pick = [i for i in range(len(reqs)) if len(vlib.to_sx(reqs[i])) < 9000][:6]
     ctx.crosscheck = vlib.coq_crosscheck([reqs[i] for i in pick], [ans[i] for i in pick], prop.lower())
 
-def write_causes(G, tables, uri, out):
+def write_causes(G, tables, uri, out, inc=True):
     """recorded defects that apply to writing this namespace of this graph"""
     c = set()
     ns = tables[0]
@@ -297,7 +300,11 @@ def write_causes(G, tables, uri, out):
     mine = [r for r in tables[1] if int(r[1][0]) == k]
     if not mine: c.add("empty-namespace")
     else:
-        uses0 = any(r[3] == ["0"] for r in mine) or any(int(t[i][0]) == 0 for t in tables[2] for i in range(3) if int(t[0][0]) == k or int(t[1][0]) == k) \
+        refs = tables[2]
+        if not inc:       # the references the writer keeps: into the namespace, or a type definition / modelling rule
+            special = [r[1] for r in tables[1] if r[0] == "UAReferenceType" and r[2] in ("HasTypeDefinition", "HasModellingRule")]
+            refs = [t for t in refs if int(t[1][0]) == k or t[2] in special]
+        uses0 = any(r[3] == ["0"] for r in mine) or any(int(t[i][0]) == 0 for t in refs for i in range(3) if int(t[0][0]) == k or int(t[1][0]) == k) \
                 or any(v[0] == "n" and int(v[1][0]) == 0 for r in mine for a, v in r[6])
         if not uses0: c.add("namespace-without-base-use")
     for r in mine:
@@ -341,8 +348,33 @@ def known_case(which):
     if which == "reqversion": model = [dict(attrs=[("ModelUri", U), ("Version", "1.0.0")], required=[[("ModelUri", UA), ("PublicationDate", "2019-01-01T00:00:00Z")]])]
     if which == "vtvalue": nodes = [_node("UAVariableType", "ns=1;i=1", "1:VT", attrs=[("DataType", "i=1")], refs=[("i=45", "false", "i=85")], value='<Boolean xmlns="%s">true</Boolean>' % uaconv.TYPES_NS)]
     if which == "flags": nodes = [_node("UAObjectType", "ns=1;i=1", "1:T", attrs=[("IsAbstract", "true")], refs=[("i=45", "false", "i=85")]), _node("UAVariable", "ns=1;i=2", "1:V", attrs=[("DataType", "i=1")], refs=[("i=47", "false", "i=85")])]
+    if which == "eventnotifier": nodes = [_node("UAObject", "ns=1;i=1", "1:A", attrs=[("EventNotifier", "255")], refs=[("i=47", "false", "i=85")]),
+                                          _node("UAVariable", "ns=1;i=2", "1:V", attrs=[("DataType", "i=1"), ("AccessLevel", "255"), ("ValueRank", "-1")], refs=[("i=47", "false", "i=85")])]
     d = dict(uris=uris, models=model, aliases=None, nodes=nodes)
     return [("Opc.Ua.NodeSet2.xml", docs.render(_base_doc())), ("a.xml", docs.render(d))], write
+
+def case_replay(case, prop):
+    """replay of a stored failing input (kind write / roundtrip): the oracle only, on the stored files"""
+    work = os.path.join(vlib.WORK, "cr_%s_%d" % (prop, os.getpid()))
+    try:
+        files = [tuple(f) for f in case["files"]]
+        paths = graphprops.write_files(work, files)
+        st, G = graphprops.build(paths)
+        if G is None: return [("%s/case-unbuildable" % prop, "%r" % (st,))]
+        tables = graph_tables(G)
+        if case["kind"] == "roundtrip":
+            base = [f for f in files if f[0].endswith("Opc.Ua.NodeSet2.xml")]
+            causes = set()
+            for uri in G.namespaces[1:]: causes |= write_causes(G, tables, uri, ["ok", ""])
+            fl = oracle_c05(work, G, tables, None, base[0])
+        else:
+            uri, inc = case["uri"], case["inc"]
+            out = impl_write(copy.deepcopy(G), uri, inc)
+            causes = write_causes(G, tables, uri, out, inc) - {"model-version-defaulted"}
+            fl = oracle_c06(tables, uri, inc, out) if prop == "C06" else oracle_c07(uri, out)
+        return [(("%s/known:" % prop + "+".join(sorted(causes))) if causes else sig, sig + ": " + detail) for sig, detail in fl]
+    finally:
+        shutil.rmtree(work, ignore_errors=True)
 
 def write_replay(case, prop):
     work = os.path.join(vlib.WORK, "wr_%s_%d" % (prop, os.getpid()))
